@@ -649,7 +649,9 @@ func runC19(c *Ctx) {
 				if len(r.Results) == 0 || isConstInt(r.Results[0], 0) {
 					continue
 				}
-				skips := reachableAvoiding(r, func(in ssa.Instruction) bool { return doesDeep(in, func(x ssa.Instruction) bool { return isCallToFn(x, consume) }) })
+				skips := reachableAvoiding(r, func(in ssa.Instruction) bool {
+					return doesDeep(in, func(x ssa.Instruction) bool { return isCallToFn(x, consume) })
+				})
 				c.check(!skips, fn, "reported bytes are consumed", exitPos(r), "every exit that reports written bytes passes Consume", "WriteTo can return a written count without consuming those bytes from the read area (error after a short write): they are handed out again and reach the peer twice")
 			}
 		}
